@@ -159,6 +159,14 @@ class RandomForestClassifier(skRandomForestClassifier, DiffprivlibMixin):  # pyl
 
         self._warn_unused_args(unused_args)
 
+    def __sklearn_tags__(self):
+        # scikit-learn builds a throw-away tree to read its tags; constructing it must not install a default accountant
+        default = BudgetAccountant._default  # pylint: disable=protected-access
+        try:
+            return super().__sklearn_tags__()
+        finally:
+            BudgetAccountant._default = default  # pylint: disable=protected-access
+
     def fit(self, X, y, sample_weight=None):
         """
         Build a forest of trees from the training set (X, y).
